@@ -64,6 +64,8 @@ func genC14(t *rapid.T) *C14Case {
 		c.Vars = append(c.Vars, [2]string{"menu-complete-display-prefix", "on"})
 	}
 
+	c.Vars = append(c.Vars, genDisplayVars(t)...)
+
 	c.Keys = append([]string{"\\t"}, rapid.SliceOfN(rapid.SampledFrom(c14MenuKeys), 0, 11).Draw(t, "keys")...)
 	if rapid.IntRange(0, 2).Draw(t, "second") == 0 {
 		c.Keys2 = append([]string{"\\t"}, rapid.SliceOfN(rapid.SampledFrom(c14MenuKeys), 0, 6).Draw(t, "keys2")...)
